@@ -199,21 +199,24 @@ def shape : List Step → List Obs → Bool
   | .run _ :: ss, .run _ :: os => shape ss os
   | .clearJunk :: ss, .cleared _ :: os => shape ss os
   | .setSig _ _ :: ss, .sigs _ :: os => shape ss os
+  | .swap :: ss, .swapped :: os => shape ss os
   | _, _ => false
 
 /-- `p` holds of every run; the junk before a run is what the previous observation left -/
-def forRuns (p : Scen → List Junk → RunObs → Bool) : List Step → List Obs → List Junk → Bool
-  | .run sc :: ss, .run o :: os, jb => p sc jb o && forRuns p ss os o.junk
-  | .clearJunk :: ss, .cleared _ :: os, _ => forRuns p ss os []
-  | .setSig _ _ :: ss, .sigs _ :: os, jb => forRuns p ss os jb
-  | _, _, _ => true
+def forRuns (p : Scen → List Junk → RunObs → Bool) : List Step → List Obs → List Junk → List Junk → Bool
+  | .run sc :: ss, .run o :: os, jb, jo => p sc jb o && forRuns p ss os o.junk jo
+  | .clearJunk :: ss, .cleared _ :: os, _, jo => forRuns p ss os [] jo
+  | .setSig _ _ :: ss, .sigs _ :: os, jb, jo => forRuns p ss os jb jo
+  | .swap :: ss, .swapped :: os, jb, jo => forRuns p ss os jo jb
+  | _, _, _, _ => true
 
 /-- `clear_junk()` returns the junk and empties it -/
-def clearOk : List Step → List Obs → List Junk → Bool
-  | .run _ :: ss, .run o :: os, _ => clearOk ss os o.junk
-  | .clearJunk :: ss, .cleared j :: os, jb => j == jb && clearOk ss os []
-  | .setSig _ _ :: ss, .sigs _ :: os, jb => clearOk ss os jb
-  | _, _, _ => true
+def clearOk : List Step → List Obs → List Junk → List Junk → Bool
+  | .run _ :: ss, .run o :: os, _, jo => clearOk ss os o.junk jo
+  | .clearJunk :: ss, .cleared j :: os, jb, jo => j == jb && clearOk ss os [] jo
+  | .setSig _ _ :: ss, .sigs _ :: os, jb, jo => clearOk ss os jb jo
+  | .swap :: ss, .swapped :: os, jb, jo => clearOk ss os jo jb
+  | _, _, _, _ => true
 
 /-- the handlers through the history: a call of `run` finds what the previous step left; between calls only the process
 changes them (`cur`: the handlers now) -/
@@ -221,9 +224,10 @@ def sigThread : List Step → List Obs → List Nat → Bool
   | .run _ :: ss, .run o :: os, cur => o.sigBefore == cur && sigThread ss os o.sigAfter
   | .clearJunk :: ss, .cleared _ :: os, cur => sigThread ss os cur
   | .setSig s h :: ss, .sigs l :: os, cur => l == cur.set s h && sigThread ss os l
+  | .swap :: ss, .swapped :: os, cur => sigThread ss os cur
   | _, _, _ => true
 
-def lift (p : Scen → List Junk → RunObs → Bool) (i : Input) (t : Trace) : Bool := forRuns p i.steps t []
+def lift (p : Scen → List Junk → RunObs → Bool) (i : Input) (t : Trace) : Bool := forRuns p i.steps t [] []
 
 def clauses : List (String × (Input → Trace → Bool)) :=
   [("shape", fun i t => shape i.steps t),
@@ -236,7 +240,7 @@ def clauses : List (String × (Input → Trace → Bool)) :=
    ("handlers-thread", fun i t => sigThread i.steps t [0, 0, 0, 0]),
    ("junk", lift cJunk),
    ("bounded", lift cBounded),
-   ("clear-junk", fun i t => clearOk i.steps t [])]
+   ("clear-junk", fun i t => clearOk i.steps t [] [])]
 
 def holds (i : Input) (t : Trace) : Bool := clauses.all fun c => c.2 i t
 
